@@ -281,6 +281,9 @@ func VerifC17Strings() {
 			if err == nil && c.ok {
 				nd.Assert(v.(float64) == c.want, "string-number-value")
 			}
+			// a value of a named string type spells a number as the string does
+			v, err = fEval("s | plus: 0", map[string]any{"s": c17Named(c.s)})
+			nd.Assert((err == nil) == c.ok && (err != nil || v.(float64) == c.want), "named-string-spells-decimal-number")
 			v, err = fEval("1 | times: s", map[string]any{"s": c.s})
 			nd.Assert((err == nil) == c.ok, "string-argument-spells-decimal-number")
 			if err == nil && c.ok {
@@ -314,6 +317,8 @@ func VerifC17Strings() {
 	nd.Reach("C17.strings")
 }
 
+type c17Named string
+
 var c17RoundCases = []struct {
 	x      float64
 	places int
@@ -322,7 +327,7 @@ var c17RoundCases = []struct {
 	{2.345, 2, 2.35}, {2.344, 2, 2.34}, {-0.25, 1, -0.2}, {0.25, 1, 0.3}, {1234.5678, 0, 1235}, {1234.5678, 3, 1234.568},
 	{-2.5, 0, -2}, {2.5, 0, 3}, {-7.5, 0, -7}, {0.5, 0, 1}, {-0.5, 0, 0}, {1.005, 1, 1}, {12, 2, 12}, {-1.75, 1, -1.7}, {1.75, 1, 1.8},
 	// more places than a float64 has, and rounding to a magnitude beyond it: exact, never NaN
-	{1.5, 309, 1.5}, {1.5, 400, 1.5}, {-2.25, 320, -2.25}, {1250, -2, 1300}, {15, -1, 20}, {7, -400, 0}, {1e300, 10, 1e300},
+	{1.5, 309, 1.5}, {1.5, 400, 1.5}, {-2.25, 320, -2.25}, {1250, -2, 1300}, {15, -1, 20}, {7, -400, 0}, {1e300, 10, 1e300}, {5, math.MinInt64, 0}, {-5, math.MinInt64 + 1, 0}, {5, math.MaxInt64, 5},
 }
 
 // VerifC17RoundPlaces: round half up to the requested number of places (forked operand set:
@@ -344,6 +349,14 @@ func VerifC17RoundPlaces() {
 		}[nd.Choice(9)]
 		v, err := fEval("x | round: p", map[string]any{"x": c.x, "p": c.places})
 		nd.Assert(err == nil && v.(float64) == c.want, "round-exact-on-representable")
+		// the places operand is an operand like any other: a string that spells no number is an error,
+		// one that does is that number
+		for _, bad := range []any{"two", "", "1x", []any{1}} {
+			_, berr := fEval("x | round: p", map[string]any{"x": 2.567, "p": bad})
+			nd.Assert(berr != nil, "round-places-not-a-number-is-error")
+		}
+		gv, gerr := fEval("x | round: p", map[string]any{"x": 2.567, "p": "2"})
+		nd.Assert(gerr == nil && gv.(float64) == 2.57, "round-places-numeric-string")
 	case 0:
 		c := c17RoundCases[nd.Choice(len(c17RoundCases))]
 		v, err := fEval("x | round: p", map[string]any{"x": c.x, "p": c.places})
